@@ -27,6 +27,139 @@ def failing_branch_appends(fn, lhs, rhs_contains, listname_contains=None):
     return None
 
 
+class _Exit(Exception):
+    def __init__(self, code):
+        self.code = code
+
+
+class _Ret(Exception):
+    pass
+
+
+class _Jump(Exception):
+    def __init__(self, kind):
+        self.kind = kind
+
+
+class _Unk(Exception):
+    pass
+
+
+def _cli_exit_semantics(fn_node, loop):
+    """Interpret the statements of `fn_node` from the `for key, value in <results>.items()` loop to the end, with <results> a dict of two keys whose values are
+    empty / non-empty lists (4 combinations): True iff the command calls sys.exit(non-zero) exactly when some list is non-empty.  None if not understood."""
+    body = fn_node.body
+    if loop not in body:
+        return None
+    tail = body[body.index(loop):]
+    # flags initialised before the loop (constants only)
+    pre_env = {}
+    for st in body[:body.index(loop)]:
+        if isinstance(st, ast.Assign) and len(st.targets) == 1 and isinstance(st.targets[0], ast.Name) and isinstance(st.value, ast.Constant):
+            pre_env[st.targets[0].id] = st.value.value
+    items_src = norm(loop.iter)
+
+    def ev(e, env):
+        if isinstance(e, ast.Constant):
+            return e.value
+        if isinstance(e, ast.Name):
+            if e.id in env:
+                return env[e.id]
+            raise _Unk
+        if isinstance(e, ast.UnaryOp) and isinstance(e.op, ast.Not):
+            return not ev(e.operand, env)
+        if isinstance(e, ast.BoolOp):
+            vals = [ev(v, env) for v in e.values]
+            return all(vals) if isinstance(e.op, ast.And) else any(vals)
+        if isinstance(e, ast.Compare) and len(e.ops) == 1:
+            a, b = ev(e.left, env), ev(e.comparators[0], env)
+            op = e.ops[0]
+            table = {ast.Eq: a == b, ast.NotEq: a != b, ast.Is: a is b, ast.IsNot: a is not b}
+            if type(op) in table:
+                return table[type(op)]
+            try:
+                return {ast.Lt: a < b, ast.LtE: a <= b, ast.Gt: a > b, ast.GtE: a >= b}[type(op)]
+            except (KeyError, TypeError):
+                raise _Unk
+        if isinstance(e, ast.Call) and norm(e.func) in ('len', 'bool', 'any') and len(e.args) == 1:
+            v = ev(e.args[0], env)
+            return {'len': len, 'bool': bool, 'any': any}[norm(e.func)](v)
+        if isinstance(e, (ast.JoinedStr,)):
+            return '<str>'
+        raise _Unk
+
+    def run(stmts, env):
+        for st in stmts:
+            if isinstance(st, ast.Expr):
+                if isinstance(st.value, ast.Call) and norm(st.value.func) in ('sys.exit', 'exit', 'raise SystemExit'):
+                    raise _Exit(ev(st.value.args[0], env) if st.value.args else 0)
+                continue   # echo / logging
+            if isinstance(st, ast.Raise):
+                if st.exc is not None and 'SystemExit' in norm(st.exc):
+                    raise _Exit(1)
+                raise _Unk
+            if isinstance(st, ast.Assign) and len(st.targets) == 1 and isinstance(st.targets[0], ast.Name):
+                env[st.targets[0].id] = ev(st.value, env)
+                continue
+            if isinstance(st, ast.AugAssign) and isinstance(st.target, ast.Name):
+                a, b = env.get(st.target.id), ev(st.value, env)
+                env[st.target.id] = (a or b) if isinstance(st.op, ast.BitOr) else (a + b if isinstance(st.op, ast.Add) else _unk())
+                continue
+            if isinstance(st, ast.If):
+                run(st.body if ev(st.test, env) else st.orelse, env)
+                continue
+            if isinstance(st, ast.For):
+                if norm(st.iter) == items_src and isinstance(st.target, ast.Tuple) and len(st.target.elts) == 2:
+                    seq = list(env['<results>'].items())
+                    names = [x.id for x in st.target.elts]
+                else:
+                    try:
+                        seq = [(x,) for x in ev(st.iter, env)]
+                    except (_Unk, TypeError):
+                        continue   # e.g. the verbose listing of the keys of one issue type: no effect on the exit status unless it exits -- treated as opaque
+                    names = [st.target.id] if isinstance(st.target, ast.Name) else None
+                    if names is None:
+                        raise _Unk
+                for item in seq:
+                    env.update(dict(zip(names, item)))
+                    try:
+                        run(st.body, env)
+                    except _Jump as j:
+                        if j.kind == 'break':
+                            break
+                continue
+            if isinstance(st, ast.Continue):
+                raise _Jump('continue')
+            if isinstance(st, ast.Break):
+                raise _Jump('break')
+            if isinstance(st, ast.Return):
+                raise _Ret
+            if isinstance(st, ast.Pass):
+                continue
+            raise _Unk
+
+    def _unk():
+        raise _Unk
+    try:
+        for a in ([], ['k1']):
+            for b in ([], ['k2']):
+                env = dict(pre_env)
+                env['<results>'] = {'x': a, 'y': b}
+                env.setdefault('verbose', False)
+                code = 0
+                try:
+                    run(tail, env)
+                except _Exit as ex:
+                    code = ex.code
+                except _Ret:
+                    code = 0
+                if bool(code) != bool(a or b):
+                    return False
+        return True
+    except (_Unk, _Jump, KeyError, TypeError):
+        return None
+
+
 def run(ctx, host=None):
     chk = host.sub('C12') if host is not None else Check('C12', ctx)
     prog = ctx.prog
@@ -237,6 +370,11 @@ def run(ctx, host=None):
         if inner_if and isinstance(flag[0].target, ast.Tuple) and norm(inner_if[0].test) == flag[0].target.elts[1].id:
             sets = [a for a in ast.walk(inner_if[0]) if isinstance(a, ast.Assign) and isinstance(a.value, ast.Constant) and a.value.value is True]
             okcli = bool(sets) and norm(exits[0].test) == norm(sets[0].targets[0])
+    if not okcli and flag:
+        # semantic reading: run the reporting part of the command for every combination of empty / non-empty issue lists (two keys) and look at the exit status
+        sem = _cli_exit_semantics(cli.node, flag[0])
+        if sem is True:
+            okcli = True
     if okcli:
         chk.ok(R3, cli.qualname, 'for key, value in results.items(): if value: errors_found = True ... sys.exit(1)', detail='CLI exits non-zero iff some field is non-empty')
     else:
